@@ -34,6 +34,7 @@ def lifecycles(draw, tier):
         c["na"] = draw(st.one_of(st.none(), st.integers(1, 4))) if t == "density" else None
         c["positional"] = draw(st.booleans())
         c["size_form"] = draw(st.sampled_from(["int", "int", "np.int64", "np.int32"]))    # e.g. sizes computed with numpy
+        c["gpu_arg"] = draw(st.sampled_from(["False", "False", "default", "True"]))        # no CUDA here: documented fallback to the CPU
     else:
         nh = draw(st.integers(1, 4))
         na = draw(st.integers(1, 3)) if t == "density" else None
@@ -90,10 +91,16 @@ def check(c):
         nh, na = c["nh"], c["na"]
         conv = {"int": int, "np.int64": np.int64, "np.int32": np.int32}[c.get("size_form", "int")]
         cv = lambda x: None if x is None else conv(x)
-        if t == "density":
-            state = cls(cv(n), cv(nh), cv(na), gpu=False) if c["positional"] else cls(num_visible=cv(n), num_hidden=cv(nh), num_aux=cv(na), gpu=False)
-        else:
-            state = cls(cv(n), cv(nh), gpu=False) if c["positional"] else cls(num_visible=cv(n), num_hidden=cv(nh), gpu=False)
+        import warnings
+        gkw = {"False": {"gpu": False}, "default": {}, "True": {"gpu": True}}[c.get("gpu_arg", "False")]
+        with warnings.catch_warnings():
+            warnings.simplefilter("ignore")
+            if t == "density":
+                state = cls(cv(n), cv(nh), cv(na), **gkw) if c["positional"] else cls(num_visible=cv(n), num_hidden=cv(nh), num_aux=cv(na), **gkw)
+            else:
+                state = cls(cv(n), cv(nh), **gkw) if c["positional"] else cls(num_visible=cv(n), num_hidden=cv(nh), **gkw)
+        require(str(state.device) == "cpu" and all(str(p_.device) == "cpu" for net in state.networks for p_ in getattr(state, net).parameters()),
+                "sizes:device", "without CUDA the state must live on the CPU whatever the gpu argument")
         labels.append("size_form=" + c.get("size_form", "int"))
         enh, ena = (nh or n), ((na or n) if t == "density" else None)
         for net in state.networks:
